@@ -54,7 +54,7 @@ def g_authority(r):
     k = r.random()
     if k < 0.25: s += g_chars(r, UNRES + SUB + ":", g_len(r)) + "@"
     elif k < 0.40:   # "name:password" forms; a digits-only password is first taken for a port by the parser
-        s += r.choice(["", "u", g_chars(r, UNRES, 2, 0)]) + ":" + r.choice(["", "1", "80", "8080", "12a", "a1", "%31"]) + "@"
+        s += r.choice(["", "u", g_chars(r, UNRES, 2, 0)]) + ":" + r.choice(["", "1", "80", "8080", "12a", "a1", "%31", "1%41", "80%2Fabc", "1.", "12:3", "1:", "0-"]) + "@"
     s += g_host(r)
     if r.random() < 0.4: s += ":" + "".join(r.choice("0123456789") for _ in range(r.choice([0, 1, 2, 5])))
     return s
